@@ -167,6 +167,8 @@ struct QuantSys {
   }
   void add_query_op(int slot) { Op o; o.kind = 'Q'; o.a = slot; o.b = 0; o.name = "Q" + str(slot); ops.push_back(o); }   // a query builds the cached sorted view
   void add_slot_merge_ops(int s, int t) { Op o; o.kind = 'M'; o.a = s; o.b = t; o.name = "M" + str(s) + str(t); ops.push_back(o); o.kind = 'R'; o.name = "R" + str(s) + str(t); ops.push_back(o); }
+  // a long run of further updates under a fixed coin schedule (one macro step): states that only show many updates after a merge
+  void add_long_op(int count, int fill) { Op o; o.kind = 'L'; o.a = fill; o.b = count; o.name = "L" + str(count) + "c" + str(fill); ops.push_back(o); }
   void add_menu_ops() {
     for (size_t j = 0; j < menu.size(); ++j) for (int f = 0; f < 3; ++f) { Op o; o.kind = 'O'; o.a = (int)j; o.b = f; o.name = "O" + menu[j].name + (f == 0 ? "l" : f == 1 ? "r" : "x"); ops.push_back(o); }
   }
@@ -212,6 +214,23 @@ struct QuantSys {
       ensure(s);
       if (o.b == (int)vals.size()) { s.sk->update(Dom<T>::nan()); return true; }
       s.sk->update(vals[o.b]); s.model.push_back(vals[o.b]); return true;
+    }
+    if (o.kind == 'L') {
+      Slot& s = st.slots[0];
+      if ((int)s.model.size() + o.b > max_n) return false;
+      ensure(s);
+      mc::Tape t; t.bit_fill = (uint64_t)o.a; mc::Tape* prev = mc::cur_tape(); mc::cur_tape() = &t;
+      bool reported = false;
+      for (int i = 0; i < o.b; ++i) {
+        const T& v = vals[(size_t)(i * 7 + i / 5) % vals.size()];
+        s.sk->update(v); s.model.push_back(v);
+        uint64_t e = 0; const uint64_t n = s.model.size();
+        if (ctx && !reported && !Fam::retained_exact(*s.sk, n, e) && s.sk->get_num_retained() > Fam::retained_bound(*s.sk, n)) {
+          reported = true; ctx->ok("retained<=space-bound(during-long-run)", false, "after " + str(i + 1) + " further updates retained " + str(s.sk->get_num_retained()) + " bound " + str(Fam::retained_bound(*s.sk, n)));
+        }
+      }
+      mc::cur_tape() = prev;
+      return true;
     }
     if (o.kind == 'Q') {
       Slot& s = st.slots[o.a];
